@@ -118,8 +118,17 @@ sexp json_read_string (sexp ctx, sexp self, sexp in) {
     if (ch == '\\') {
       ch = sexp_read_char(ctx, in);
       switch (ch) {
+      case 'b':
+        buf[i++] = '\b';
+        break;
+      case 'f':
+        buf[i++] = '\f';
+        break;
       case 'n':
         buf[i++] = '\n';
+        break;
+      case 'r':
+        buf[i++] = '\r';
         break;
       case 't':
         buf[i++] = '\t';
